@@ -169,6 +169,9 @@ func (g *Gen) RegSet(cfg GenCfg) []*Reg {
 				} else if g.p(cfg.PGroup) {
 					grp = 1 + g.n(2) // a group:"…" field: one more member of that group (repeats allowed)
 				}
+				if nm != 0 && g.p(0.12) {
+					grp = 1 + g.n(2) // both tags on one field: the whole registration is refused (F33)
+				}
 				if grp == 0 {
 					if seen[ident{t, nm, 0}] {
 						continue
@@ -526,6 +529,7 @@ func (g *Gen) History(regs []*Reg, p int, cfg HistCfg) []Op {
 	nScopes := 0
 	nCtx := 0
 	cancelled := map[int]bool{}
+	derived := map[int]bool{}
 	var ops []Op
 	for i := 0; i < cfg.NOps; i++ {
 		x := g.rnd.Float64()
@@ -533,11 +537,16 @@ func (g *Gen) History(regs []*Reg, p int, cfg HistCfg) []Op {
 		case x < 0.22 && nScopes < cfg.MaxScopes:
 			o := Op{Kind: "createscope", P: p, Parent: g.n(nScopes + 1)}
 			if g.p(cfg.PCtx) {
-				if c := 1 + g.n(nCtx+1); nCtx > 0 && g.p(0.3) && c <= nCtx && !cancelled[c] {
+				if c := 1 + g.n(nCtx+1); nCtx > 0 && g.p(0.3) && c <= nCtx && !cancelled[c] && !derived[c] {
 					o.Ctx = c
 				} else {
 					nCtx++
 					o.Ctx = nCtx
+					if o.Parent != 0 && g.p(0.5) {
+						// derived from the parent scope's context, with a cancellation of its own; never used for another scope
+						o.Derive = true
+						derived[nCtx] = true
+					}
 				}
 			}
 			ops = append(ops, o)
